@@ -43,153 +43,188 @@ def normalizeSE3 (env : Env A) (p : Pose A) : Pose A :=
   | [a0, a1, a2, a3, a4, a5, a6] => ⟨p.kind, a0 :: a1 :: a2 :: env.normQ a3 a4 a5 a6⟩
   | _ => p
 
+/-- a `from_g2o` branch that was entered returns an object (or raises), never `None` -/
+def someE {α : Type} : Except PyErr α → Except PyErr (Option α)
+  | .ok a => .ok (some a)
+  | .error e => .error e
+
 /-- the text after `TAG + " "`, split: `line[len("TAG "):].split()` -/
 def numbersOf (tag : Str) (line : Str) : List Str := splitWS (line.drop (tag.length + 1))
 
+/-- the branch of `Vertex.fromG2O` for the tag `T.vertexXY` -/
+def Vertex.from_vertexXY (env : Env A) (line : Str) : Except PyErr (Vertex A) :=
+  let numbers := numbersOf T.vertexXY line
+  match floats env (numbers.drop 1) with
+  | .error e => .error e
+  | .ok arr =>
+    match pyInt env numbers 0 with
+    | .error e => .error e
+    | .ok i => .ok ⟨i, ⟨.r2, arr⟩⟩
+
+/-- the branch of `Vertex.fromG2O` for the tag `T.vertexTrackXYZ` -/
+def Vertex.from_vertexTrackXYZ (env : Env A) (line : Str) : Except PyErr (Vertex A) :=
+  let numbers := numbersOf T.vertexTrackXYZ line
+  match floats env (numbers.drop 1) with
+  | .error e => .error e
+  | .ok arr =>
+    match pyInt env numbers 0 with
+    | .error e => .error e
+    | .ok i => .ok ⟨i, ⟨.r3, arr⟩⟩
+
+/-- the branch of `Vertex.fromG2O` for the tag `T.vertexSE2` -/
+def Vertex.from_vertexSE2 (env : Env A) (line : Str) : Except PyErr (Vertex A) :=
+  let numbers := numbersOf T.vertexSE2 line
+  match floats env (numbers.drop 1) with
+  | .error e => .error e
+  | .ok arr =>
+    match mkSE2 env arr with
+    | .error e => .error e
+    | .ok p =>
+      match pyInt env numbers 0 with
+      | .error e => .error e
+      | .ok i => .ok ⟨i, p⟩
+
+/-- the branch of `Vertex.fromG2O` for the tag `T.vertexSE3` -/
+def Vertex.from_vertexSE3 (env : Env A) (line : Str) : Except PyErr (Vertex A) :=
+  let numbers := numbersOf T.vertexSE3 line
+  match floats env (numbers.drop 1) with
+  | .error e => .error e
+  | .ok arr =>
+    match mkSE3 arr with
+    | .error e => .error e
+    | .ok p =>
+      match pyInt env numbers 0 with
+      | .error e => .error e
+      | .ok i => .ok ⟨i, p⟩
+
 /-- `Vertex.from_g2o` (vertex.py:106-152); `none` = the line is not a vertex line -/
 def Vertex.fromG2O (env : Env A) (line : Str) : Except PyErr (Option (Vertex A)) :=
-  if startsWith (withSp T.vertexXY) line then
-    let numbers := numbersOf T.vertexXY line
-    match floats env (numbers.drop 1) with
-    | .error e => .error e
-    | .ok arr =>
-      match pyInt env numbers 0 with
-      | .error e => .error e
-      | .ok i => .ok (some ⟨i, ⟨.r2, arr⟩⟩)
-  else if startsWith (withSp T.vertexTrackXYZ) line then
-    let numbers := numbersOf T.vertexTrackXYZ line
-    match floats env (numbers.drop 1) with
-    | .error e => .error e
-    | .ok arr =>
-      match pyInt env numbers 0 with
-      | .error e => .error e
-      | .ok i => .ok (some ⟨i, ⟨.r3, arr⟩⟩)
-  else if startsWith (withSp T.vertexSE2) line then
-    let numbers := numbersOf T.vertexSE2 line
-    match floats env (numbers.drop 1) with
-    | .error e => .error e
-    | .ok arr =>
-      match mkSE2 env arr with
-      | .error e => .error e
-      | .ok p =>
-        match pyInt env numbers 0 with
-        | .error e => .error e
-        | .ok i => .ok (some ⟨i, p⟩)
-  else if startsWith (withSp T.vertexSE3) line then
-    let numbers := numbersOf T.vertexSE3 line
-    match floats env (numbers.drop 1) with
-    | .error e => .error e
-    | .ok arr =>
-      match mkSE3 arr with
-      | .error e => .error e
-      | .ok p =>
-        match pyInt env numbers 0 with
-        | .error e => .error e
-        | .ok i => .ok (some ⟨i, p⟩)
+  if startsWith (withSp T.vertexXY) line then someE (Vertex.from_vertexXY env line)
+  else if startsWith (withSp T.vertexTrackXYZ) line then someE (Vertex.from_vertexTrackXYZ env line)
+  else if startsWith (withSp T.vertexSE2) line then someE (Vertex.from_vertexSE2 env line)
+  else if startsWith (withSp T.vertexSE3) line then someE (Vertex.from_vertexSE3 env line)
   else .ok none
+
+/-- the branch of `EdgeOdometry.fromG2O` for the tag `T.edgeSE2` -/
+def EdgeOdometry.from_edgeSE2 (env : Env A) (line : Str) : Except PyErr (Edge A) :=
+  let numbers := numbersOf T.edgeSE2 line
+  match floats env (numbers.drop 2) with
+  | .error e => .error e
+  | .ok arr =>
+    match pyInt env numbers 0 with
+    | .error e => .error e
+    | .ok i0 =>
+      match pyInt env numbers 1 with
+      | .error e => .error e
+      | .ok i1 =>
+        match mkSE2 env arr with
+        | .error e => .error e
+        | .ok est =>
+          match expandTriu env.zero 3 (arr.drop 3) with
+          | .error e => .error e
+          | .ok info => .ok ⟨[i0, i1], info, .odometry est⟩
+
+/-- the branch of `EdgeOdometry.fromG2O` for the tag `T.edgeSE3` -/
+def EdgeOdometry.from_edgeSE3 (env : Env A) (line : Str) : Except PyErr (Edge A) :=
+  let numbers := numbersOf T.edgeSE3 line
+  match floats env (numbers.drop 2) with
+  | .error e => .error e
+  | .ok arr =>
+    match pyInt env numbers 0 with
+    | .error e => .error e
+    | .ok i0 =>
+      match pyInt env numbers 1 with
+      | .error e => .error e
+      | .ok i1 =>
+        match mkSE3 arr with
+        | .error e => .error e
+        | .ok est =>
+          match expandTriu env.zero 6 (arr.drop 7) with
+          | .error e => .error e
+          | .ok info => .ok ⟨[i0, i1], info, .odometry (normalizeSE3 env est)⟩
 
 /-- `EdgeOdometry.from_g2o` (edge_odometry.py:149-185) -/
 def EdgeOdometry.fromG2O (env : Env A) (line : Str) : Except PyErr (Option (Edge A)) :=
-  if startsWith (withSp T.edgeSE2) line then
-    let numbers := numbersOf T.edgeSE2 line
-    match floats env (numbers.drop 2) with
+  if startsWith (withSp T.edgeSE2) line then someE (EdgeOdometry.from_edgeSE2 env line)
+  else if startsWith (withSp T.edgeSE3) line then someE (EdgeOdometry.from_edgeSE3 env line)
+  else .ok none
+
+/-- the branch of `EdgeLandmark.fromG2O` for the tag `T.edgeSE2XY` -/
+def EdgeLandmark.from_edgeSE2XY (env : Env A) (_params : List (Param A)) (line : Str) : Except PyErr (Edge A) :=
+  let numbers := numbersOf T.edgeSE2XY line
+  match floats env (numbers.drop 2) with
+  | .error e => .error e
+  | .ok arr =>
+    match pyInt env numbers 0 with
     | .error e => .error e
-    | .ok arr =>
-      match pyInt env numbers 0 with
+    | .ok i0 =>
+      match pyInt env numbers 1 with
       | .error e => .error e
-      | .ok i0 =>
-        match pyInt env numbers 1 with
+      | .ok i1 =>
+        match expandTriu env.zero 2 (arr.drop 2) with
         | .error e => .error e
-        | .ok i1 =>
-          match mkSE2 env arr with
-          | .error e => .error e
-          | .ok est =>
+        | .ok info =>
+          .ok ⟨[i0, i1], info, .landmark ⟨.r2, arr.take 2⟩ ⟨.se2, [env.zero, env.zero, env.wrap env.zero]⟩ (some 0)⟩
+
+/-- the branch of `EdgeLandmark.fromG2O` for the tag `T.edgeSE3TrackXYZ` -/
+def EdgeLandmark.from_edgeSE3TrackXYZ (env : Env A) (params : List (Param A)) (line : Str) : Except PyErr (Edge A) :=
+  let numbers := numbersOf T.edgeSE3TrackXYZ line
+  match floats env (numbers.drop 3) with
+  | .error e => .error e
+  | .ok arr =>
+    match pyInt env numbers 0 with
+    | .error e => .error e
+    | .ok i0 =>
+      match pyInt env numbers 1 with
+      | .error e => .error e
+      | .ok i1 =>
+        match pyInt env numbers 2 with
+        | .error e => .error e
+        | .ok oid =>
+          match lookupParam params .se3offset oid with
+          | none => .error .keyError
+          | some p =>
             match expandTriu env.zero 3 (arr.drop 3) with
             | .error e => .error e
-            | .ok info => .ok (some ⟨[i0, i1], info, .odometry est⟩)
-  else if startsWith (withSp T.edgeSE3) line then
-    let numbers := numbersOf T.edgeSE3 line
-    match floats env (numbers.drop 2) with
-    | .error e => .error e
-    | .ok arr =>
-      match pyInt env numbers 0 with
-      | .error e => .error e
-      | .ok i0 =>
-        match pyInt env numbers 1 with
-        | .error e => .error e
-        | .ok i1 =>
-          match mkSE3 arr with
-          | .error e => .error e
-          | .ok est =>
-            match expandTriu env.zero 6 (arr.drop 7) with
-            | .error e => .error e
-            | .ok info => .ok (some ⟨[i0, i1], info, .odometry (normalizeSE3 env est)⟩)
-  else .ok none
+            | .ok info => .ok ⟨[i0, i1], info, .landmark ⟨.r3, arr.take 3⟩ p.value (some oid)⟩
 
 /-- `EdgeLandmark.from_g2o` (edge_landmark.py:161-199); `params` is the dictionary of the parameters read so far -/
 def EdgeLandmark.fromG2O (env : Env A) (params : List (Param A)) (line : Str) : Except PyErr (Option (Edge A)) :=
-  if startsWith (withSp T.edgeSE2XY) line then
-    let numbers := numbersOf T.edgeSE2XY line
-    match floats env (numbers.drop 2) with
-    | .error e => .error e
-    | .ok arr =>
-      match pyInt env numbers 0 with
-      | .error e => .error e
-      | .ok i0 =>
-        match pyInt env numbers 1 with
-        | .error e => .error e
-        | .ok i1 =>
-          match expandTriu env.zero 2 (arr.drop 2) with
-          | .error e => .error e
-          | .ok info =>
-            .ok (some ⟨[i0, i1], info, .landmark ⟨.r2, arr.take 2⟩ ⟨.se2, [env.zero, env.zero, env.wrap env.zero]⟩ (some 0)⟩)
-  else if startsWith (withSp T.edgeSE3TrackXYZ) line then
-    let numbers := numbersOf T.edgeSE3TrackXYZ line
-    match floats env (numbers.drop 3) with
-    | .error e => .error e
-    | .ok arr =>
-      match pyInt env numbers 0 with
-      | .error e => .error e
-      | .ok i0 =>
-        match pyInt env numbers 1 with
-        | .error e => .error e
-        | .ok i1 =>
-          match pyInt env numbers 2 with
-          | .error e => .error e
-          | .ok oid =>
-            match lookupParam params .se3offset oid with
-            | none => .error .keyError
-            | some p =>
-              match expandTriu env.zero 3 (arr.drop 3) with
-              | .error e => .error e
-              | .ok info => .ok (some ⟨[i0, i1], info, .landmark ⟨.r3, arr.take 3⟩ p.value (some oid)⟩)
+  if startsWith (withSp T.edgeSE2XY) line then someE (EdgeLandmark.from_edgeSE2XY env params line)
+  else if startsWith (withSp T.edgeSE3TrackXYZ) line then someE (EdgeLandmark.from_edgeSE3TrackXYZ env params line)
   else .ok none
+
+/-- the branch of `Param.fromG2O` for the tag `T.paramsSE2Offset` -/
+def Param.from_paramsSE2Offset (env : Env A) (line : Str) : Except PyErr (Param A) :=
+  let numbers := numbersOf T.paramsSE2Offset line
+  match floats env (numbers.drop 1) with
+  | .error e => .error e
+  | .ok arr =>
+    match pyInt env numbers 0 with
+    | .error e => .error e
+    | .ok i =>
+      match mkSE2 env arr with
+      | .error e => .error e
+      | .ok p => .ok ⟨.se2offset, i, p⟩
+
+/-- the branch of `Param.fromG2O` for the tag `T.paramsSE3Offset` -/
+def Param.from_paramsSE3Offset (env : Env A) (line : Str) : Except PyErr (Param A) :=
+  let numbers := numbersOf T.paramsSE3Offset line
+  match floats env (numbers.drop 1) with
+  | .error e => .error e
+  | .ok arr =>
+    match pyInt env numbers 0 with
+    | .error e => .error e
+    | .ok i =>
+      match mkSE3 arr with
+      | .error e => .error e
+      | .ok p => .ok ⟨.se3offset, i, p⟩
 
 /-- `G2OParameterSE2Offset.from_g2o`, then `G2OParameterSE3Offset.from_g2o` (g2o_parameters.py; `param_from_g2o` in
 graph.py:581-602).  Here the id is converted **before** the pose is built. -/
 def Param.fromG2O (env : Env A) (line : Str) : Except PyErr (Option (Param A)) :=
-  if startsWith (withSp T.paramsSE2Offset) line then
-    let numbers := numbersOf T.paramsSE2Offset line
-    match floats env (numbers.drop 1) with
-    | .error e => .error e
-    | .ok arr =>
-      match pyInt env numbers 0 with
-      | .error e => .error e
-      | .ok i =>
-        match mkSE2 env arr with
-        | .error e => .error e
-        | .ok p => .ok (some ⟨.se2offset, i, p⟩)
-  else if startsWith (withSp T.paramsSE3Offset) line then
-    let numbers := numbersOf T.paramsSE3Offset line
-    match floats env (numbers.drop 1) with
-    | .error e => .error e
-    | .ok arr =>
-      match pyInt env numbers 0 with
-      | .error e => .error e
-      | .ok i =>
-        match mkSE3 arr with
-        | .error e => .error e
-        | .ok p => .ok (some ⟨.se3offset, i, p⟩)
+  if startsWith (withSp T.paramsSE2Offset) line then someE (Param.from_paramsSE2Offset env line)
+  else if startsWith (withSp T.paramsSE3Offset) line then someE (Param.from_paramsSE3Offset env line)
   else .ok none
 
 /-- a registered custom edge type: its `from_g2o(line, g2o_params)` class method (user code, a parameter of the model) -/
